@@ -23,7 +23,7 @@ K = (("netgroup", 4), ("ping", 8), ("txtime", 4), ("blocktime", 4))
 
 def runs(tier, seed):
     if tier == "thorough":
-        return [Run("evict", cases=5000000, params={"full_every": 64, "small_n": 16}, timeout=3000)]
+        return [Run("evict", cases=3000000, params={"full_every": 64, "small_n": 16}, timeout=3000)]
     return [Run("evict", cases=50000, params={"full_every": 16, "small_n": 24}, timeout=900)]
 
 
